@@ -384,7 +384,8 @@ def install(reg):
         if not isinstance(b, HBytes):
             raise Unsupported("readinto into a non-bytearray")
         p.engine.assumption("readinto on a regular file returns min(len(buf), remaining) bytes (short only at end of file)")
-        blen = z3.Length(b.t)
+        opaque = b.length is not None
+        blen = b.length if opaque else z3.Length(b.t)
         avail = z3.Length(h.tail)
         n = p.fresh("nread", I)
         p.assume(n == z3.If(blen <= avail, blen, avail))
@@ -395,25 +396,23 @@ def install(reg):
         p.assume(z3.Length(data) == n)
         p.assume(z3.Implies(n == 0, z3.And(data == z3.Empty(BYTES), tail2 == h.tail)))
         p.assume(z3.Implies(n == avail, tail2 == z3.Empty(BYTES)))
-        # the buffer: first n bytes replaced
-        zt = p.ghost.get("zeros_terms", [])
-        zlen = None
-        for zterm, zn in zt:
-            if zterm.eq(b.t):
-                zlen = zn
-        bs = z3.simplify(b.t)
         newbuf = p.fresh("buf", BYTES)
-        if zlen is not None:
-            suffix = p.engine.zeros(p, z3.simplify(zlen - n))
-        elif z3.is_app(bs) and bs.decl().kind() in (z3.Z3_OP_SEQ_UNIT, z3.Z3_OP_SEQ_CONCAT, z3.Z3_OP_SEQ_EMPTY) and all(
-                z3.is_int_value(z3.simplify(bs.arg(k).arg(0))) and z3.simplify(bs.arg(k).arg(0)).as_long() == 0
-                for k in range(bs.num_args()) if bs.decl().kind() == z3.Z3_OP_SEQ_CONCAT):
-            suffix = z3.SubSeq(b.t, n, blen - n)
+        if opaque:
+            # large fixed-size buffer: only "buf[:n] is what was read" (recorded below) and "a full read replaces everything"
+            p.assume(z3.Implies(n == blen, newbuf == data))
         else:
-            suffix = z3.SubSeq(b.t, n, blen - n)
-        p.assume(newbuf == z3.Concat(data, suffix))
-        p.assume(z3.Length(newbuf) == blen)
-        p.assume(z3.Implies(n == blen, newbuf == data))
+            zt = p.ghost.get("zeros_terms", [])
+            zlen = None
+            for zterm, zn in zt:
+                if zterm.eq(b.t):
+                    zlen = zn
+            if zlen is not None:
+                suffix = p.engine.zeros(p, z3.simplify(zlen - n))
+            else:
+                suffix = z3.SubSeq(b.t, n, blen - n)
+            p.assume(newbuf == z3.Concat(data, suffix))
+            p.assume(z3.Length(newbuf) == blen)
+            p.assume(z3.Implies(n == blen, newbuf == data))
         p.ghost.setdefault("known_slices", []).append((newbuf, n, data))
         p.ghost["last_read"] = data
         b.t = newbuf
